@@ -3,6 +3,7 @@ pub mod c01;
 pub mod c02;
 pub mod c05;
 pub mod c06;
+pub mod c07;
 pub mod c08;
 pub mod c09;
 pub mod c10;
@@ -27,6 +28,7 @@ pub fn dispatch(a: &Args) {
 		"c05" => c05::run(a),
 		"c06" => c06::run(a),
 		"c06child" => c06::child(a),
+		"c07" => c07::run(a),
 		"c08" => c08::run(a),
 		"c09" => c09::run(a),
 		"c10" => c10::run(a),
